@@ -163,7 +163,7 @@ func c16Literal(c *mon.Ctx, s string, style int, r *xgen.Renderer) {
 	c.Distinct("lit/" + styleNames[style] + "/" + s)
 }
 
-var c16FixedStrings = []string{"\ufffd", "a\ufffd", "caf\ufffd\ufffd", "v1.2", "cfg.a.b", "r2024.10.3", "", "/", "/usr/bin", "/a/b/c", "/a~1b", "/~0", "//", "/ü", "/a b", "a/b", "\"", "\"\"", "a\"b", "\\", "\\\"", "\\n", "`", "a`b", "\r", "\n", "\r\n", "\t", "\x00", "\x7f",
+var c16FixedStrings = []string{"a.b", "x.y.z", "cfg.x.1.5.y", "host.eu west.1", "\ufffd", "a\ufffd", "caf\ufffd\ufffd", "v1.2", "cfg.a.b", "r2024.10.3", "", "/", "/usr/bin", "/a/b/c", "/a~1b", "/~0", "//", "/ü", "/a b", "a/b", "\"", "\"\"", "a\"b", "\\", "\\\"", "\\n", "`", "a`b", "\r", "\n", "\r\n", "\t", "\x00", "\x7f",
 	"\xff", "\xc3", "é", "日本語", "😀", "\u2028", "not", "and", "or", "in", "is", "empty", "contains", "matches", "any", "all", "as", "true", "false", "nil", "null",
 	"0", "1", "-1", "1.5", "01", "-0", "1e3", "0x10", "foo", "foo.bar", "foo.0", "a_b", "x/y", " ", "  x  ", "(", ")", "{", "}", "[", "]", ",", ".", "==", "!=", "a == b", "%d", "\\x22", "\\u00e9", "~", "~0", "~1"}
 
@@ -174,7 +174,11 @@ func c16Run(c *mon.Ctx, idx int) {
 		// fixed literal strings in every admissible style, several renderings
 		s := c16FixedStrings[idx]
 		for _, st := range xgen.StylesFor(s) {
-			for k := 0; k < 4; k++ {
+			n := 4
+			if st == xgen.StyleBare && strings.Contains(s, ".") {
+				n = 40 // many spellings: dotted, bracketed, merged parts
+			}
+			for k := 0; k < n; k++ {
 				c16Literal(c, s, st, &xgen.Renderer{R: r})
 			}
 		}
